@@ -7,31 +7,52 @@
        success); the step must accept it, and the model's store status must equal the observed one.
    (2) the property's own checker, on the log alone: every accepted, unexpired, unrefused bundle that
        was not yet transmitted successfully is in the store and pending after every event; direct
-       delivery and the epidemic offer on a peer's appearance; a failed peer does not stay in `sent`. *)
+       delivery and the epidemic offer on a peer's appearance; a failed peer does not stay in `sent`.
+       "Refused for cause" is read off the block array in the bundle's description: only a block of a type
+       the node does not know that carries the delete-bundle flag refuses a received bundle (the model's
+       verdict for the same array is Model.scf_rx_del, the loop of receive).
+   (3) histories under schedule control (harness/scf_sched.go): an (atreturn ..) record after an event lists
+       the failure reports that had not finished when forward went on / the handler returned (the model's
+       handlers are atomic: Mismatch) and the store status at handler return, which must equal the status
+       after everything had run; the property is judged on the latter. *)
 open Model
 open Conv
 open Sexp
 open Verdict
 
 type tb = { idx : int; local : bool; dst : int; prev : int; ts : n; life : n; age : n option;
-            hop : (n * n) option; del : bool; dead : bool;
+            hop : (n * n) option; del : bool; mdel : bool; blks : (bool * int) list; dead : bool;
             mutable accepted : bool; mutable refused : bool; mutable okpeers : int list;
             mutable lost : bool; mutable known : bool; mutable pend : bool; mutable sent : int list }
 
-let tb_of_s s = match lst s with
-  | [idx; local; dst; prev; ts; life; age; hop; del; dead] ->
+(* block processing control flags (RFC 9171 4.2.4 / bpv7.BlockControlFlags) *)
+let fl_replicate = 1 and fl_report = 2 and fl_delete = 4 and fl_remove = 16
+let has f (_, fl) = fl land f <> 0
+
+let tb_of_s s =
+  let mk idx local dst prev ts life age hop del dead blks =
+    (* the property's reading: refused for cause only when a block of a type the node does not know
+       demands the deletion; the model's: the loop of receive *)
+    let blks = List.map (fun b -> match lst b with [k; f] -> (s_bool k, s_int f) | _ -> raise (Bad "block")) blks in
+    let pdel, mdel =
+      if blks = [] then s_bool del, s_bool del
+      else List.exists (fun b -> not (fst b) && has fl_delete b) blks,
+           scf_rx_del (List.map (fun (k, f) -> { bk_known = k; bk_flags = n_of_int f }) blks) in
     { idx = s_int idx; local = s_bool local; dst = s_int dst; prev = s_int prev; ts = s_n ts; life = s_n life;
       age = (match lst age with [a] -> Some (s_n a) | _ -> None);
       hop = (match lst hop with [l; c] -> Some (s_n l, s_n c) | _ -> None);
-      del = s_bool del; dead = s_bool dead; accepted = false; refused = false; okpeers = []; lost = false;
-      known = false; pend = false; sent = [] }
+      del = pdel; mdel; blks; dead = s_bool dead; accepted = false; refused = false; okpeers = []; lost = false;
+      known = false; pend = false; sent = [] } in
+  match lst s with
+  | [idx; local; dst; prev; ts; life; age; hop; del; dead; blks] -> mk idx local dst prev ts life age hop del dead (lst blks)
+  | [idx; local; dst; prev; ts; life; age; hop; del; dead] -> mk idx local dst prev ts life age hop del dead []
   | _ -> raise (Bad "bundle description")
 
 let ni = n_of_int
 let model_bundle (t : tb) : scf_bundle =
   { sb_id = ni t.idx; sb_local = t.local; sb_dst = ni t.dst;
     sb_prev = (if t.prev = 0 then None else Some (ni t.prev));
-    sb_ts = t.ts; sb_life = t.life; sb_age = t.age; sb_hop = t.hop; sb_del = t.del }
+    sb_ts = t.ts; sb_life = t.life; sb_age = t.age; sb_hop = t.hop; sb_del = t.mdel }
 
 let hop_exceeded t = match t.hop with Some (l, c) -> int_of_n l < int_of_n c + 1 | None -> false
 
@@ -75,7 +96,25 @@ let hist = function
         let stats = List.map stat_of_s (lst (List.nth l (nl - 2))) in
         let other = s_int (List.nth l (nl - 1)) in
         if other > 0 then tag "metadata-sends";
-        tag kind;
+        if kind <> "atreturn" then tag kind;
+        if kind = "atreturn" then begin
+          (* schedule control: what was held back when the handler returned, and the store as the handler
+             left it; the event's own record (before this one) has the store after everything had run *)
+          decr evno;
+          List.iter (fun p -> tag ("sched-" ^ s_sym p)) (lst (List.nth l 3));
+          List.iter (fun e -> match lst e with
+              | [i; p] ->
+                res := Mismatch (Printf.sprintf "%s: event %d: the failure report for the send of bundle %d to n%d was still running when forward went on / the handler returned (the model's handlers are atomic)"
+                                   algname !evno (s_int i) (s_int p)) :: !res
+              | _ -> raise (Bad "escaped report")) (lst (List.nth l 2));
+          List.iter (fun q ->
+              match Hashtbl.find_opt tracked q.q_idx with
+              | Some t when (q.q_known, q.q_pend, q.q_sent) <> (t.known, t.pend, t.sent) && not !mism ->
+                mism := true;
+                res := Mismatch (Printf.sprintf "%s: event %d: the store item of bundle %d changed after the handler had returned (pending %b, sent %s; then pending %b, sent %s)"
+                                   algname !evno t.idx q.q_pend (show_ints q.q_sent) t.pend (show_ints t.sent)) :: !res
+              | _ -> ()) stats
+        end else
         if kind <> "nop" then begin
           (* ---------------- the input event ---------------- *)
           let newtb = match kind with
@@ -99,6 +138,23 @@ let hist = function
              else (t.accepted <- true; if t.del then (t.refused <- true; tag "refused-unknown-block"));
              if hop_exceeded t then (t.refused <- true; tag "refused-hop-limit");
              if t.dead then tag "bundle-expired";
+             if List.length t.blks > 1 && kind = "rcv" then begin
+               let rec adj = function
+                 | a :: (b :: _ as r) ->
+                   if not (fst a) then begin
+                     tag "blocks-unknown";
+                     if has fl_remove a && not (has fl_delete a) then begin
+                       tag "blocks-unknown-remove";
+                       if has fl_delete b then tag (if fst b then "blocks-unknown-remove-before-known-delete" else "blocks-unknown-remove-before-unknown-delete")
+                     end;
+                     if has fl_report a then tag "blocks-unknown-report";
+                     if has fl_replicate a then tag "blocks-unknown-replicate"
+                   end else if has fl_delete a then tag "blocks-known-delete";
+                   adj r
+                 | [a] -> if has fl_delete a then tag "blocks-payload-delete"
+                 | [] -> () in
+               adj t.blks
+             end;
              if t.ts = N0 then tag "zero-time" else tag "timestamped";
              if t.dst = 0 then tag "local-destination"
            | None -> ());
